@@ -117,6 +117,7 @@ var srcKinds = []string{
 	"bytereader-at-offset", // *bytes.Reader that has already delivered a 3-byte prefix (a field in the middle of a packet)
 	"plain-1-byte-reads",   // io.Reader only, every Read returns at most one byte (legal short reads)
 	"bufio-3-byte-reads",   // *bufio.Reader (a ByteReader, as in go-mc's own net.Conn) over a source that hands out at most 3 bytes per Read: short reads AND ReadByte
+	"bytes.Buffer-reused",  // *bytes.Buffer (ByteReader, WriterTo, Next/Bytes expose its array); its memory is overwritten and the buffer refilled after ReadFrom returns, before the decoded value is looked at: a field must own what it decoded
 }
 
 func srcName(s int) string { return srcKinds[s] }
@@ -283,6 +284,7 @@ func erase[T any](c *codec[T]) *erased {
 			}
 			var r io.Reader
 			var taken func() int // bytes of `stream` the source has handed out
+			var afterRead func() // what the caller does with its source before it looks at the decoded value
 			switch src {
 			case 0:
 				br := bytes.NewReader(stream)
@@ -306,6 +308,19 @@ func erase[T any](c *codec[T]) *erased {
 				bf := bufio.NewReaderSize(dr, 16)
 				// what the decoder took is what left the underlying source minus what bufio still holds
 				r, taken = bf, func() int { return dr.Pos - bf.Buffered() }
+			case 5:
+				backing := append(make([]byte, 0, len(stream)+8), stream...)
+				bb := bytes.NewBuffer(backing)
+				r, taken = bb, func() int { return len(stream) - bb.Len() }
+				afterRead = func() {
+					// the caller reuses its buffer: every byte of its array changes, then it is refilled
+					full := backing[:cap(backing)]
+					for i := range full {
+						full[i] = 0xEE
+					}
+					bb.Reset()
+					bb.Write(bytes.Repeat([]byte{0xDD}, len(stream)+4))
+				}
 			default:
 				engine.HarnessError("unknown source kind %d", src)
 			}
@@ -313,6 +328,9 @@ func erase[T any](c *codec[T]) *erased {
 			var err error
 			kind, frame, panicked := engine.Guard(func() { n, err = c.decoder(&dst).ReadFrom(r) })
 			consumed := taken()
+			if afterRead != nil && !panicked {
+				afterRead()
+			}
 			if step > 0 {
 				priorKind = "destination-held-another-value"
 			}
